@@ -152,6 +152,10 @@ def body(cfg):
     # (seeded constant runs use moderate indices: in doubles, differences of coordinates of far-away
     #  voxels lose digits, which is not what the const-versus-plain comparison is about)
     v = [S.integer(f"v{m}", -(10**7), 10**7, default=lambda rng: rng.randint(-40, 40)) for m in range(dim)]
+    # the coordinate system is KEPT by the caller while another image (other shape, other extents) is set up
+    # and its coordinate system is used: the kept one must go on describing its own image
+    other = darsia.Image(np.zeros(tuple(n + 1 for n in shape)), dimensions=[S.real(f"e{m}", lo="1/10000", hi=10000) for m in range(dim)], space_dim=dim, scalar=True)
+    other.coordinatesystem.coordinate([1] * dim)
     cv = cs.coordinate(list(v))
     exp_cv = [0] * dim
     for m in range(dim):
